@@ -54,9 +54,7 @@ def loop_updates(W, f, var_name):
     if not loops:
         return None, 'no loop'
     # outermost loop = the largest body
-    body = max(loops, key=len)
-    hdr = [h for (n, h) in G._back if h in body and n in body]
-    header = [h for (n, h) in G._back if {n, h} <= body][0] if hdr else None
+    header, body = max(G.loop_by_header().items(), key=lambda kv: len(kv[1]))
     latches = [n for (n, h) in G._back if h == header]
     inside = [b for b in defs if b in body]
     if not inside:
